@@ -336,7 +336,7 @@ ZdtExpected(ret, a) ==
   IF ~ZComputable(z) THEN Same
   ELSE CASE ret \in DateFieldNames -> Ok(DateField(ZDate(z), ret))
          [] ret \in TimeFieldNames -> Ok(TimeField(ZTime(z), ret))
-         [] ret = "offset" -> Ok(OffStr(z.off))
+         [] ret = "offset" -> Same                        \* the offset *format* is C11's subject; wiring is covered by wrapper = core
          [] ret = "offset_nanoseconds" -> Ok(K9(FromInt(z.off)))
          [] ret = "to_plain_date" -> Ok(ZDate(z))
          [] ret = "to_plain_time" -> Ok(ZTime(z))
@@ -410,7 +410,7 @@ InstExpected(ret, a) ==
 
 YmExpected(ret, a) ==
   IF HasKey(a, "recv") /\ ~IsIso(a.recv) THEN Same
-  ELSE CASE ret = "padded_iso_year_string" -> Ok(PadYear(a.recv.y))
+  ELSE CASE ret = "padded_iso_year_string" -> Same    \* year padding is C11's subject (PadYear above is the reference form)
          [] ret \in DateFieldNames -> Ok(DateField(Date(a.recv.y, a.recv.m, 1), ret))
          [] ret = "mk_ym" -> IF IsIso(a.f) /\ DateOK(Date(a.f.y, a.f.m, GetOr(a.f, "rd", 1))) /\ AbsI(a.f.y) < 270000
                              THEN Ok([y |-> a.f.y, m |-> a.f.m]) ELSE Same
